@@ -435,3 +435,19 @@ def run(ck):
     order_ok = bool(brk_if) and cfg6.dominates(cfg6.locate(n6.nodes[brk_if[0]]['cond']), cfg6.locate(pct[0]))
     ck.ob('C34.v6', 'C34.v6/brackets-before-zone', order_ok, n6.loc(pct[0]),
           'normalize_ipv6 tests for and strips the enclosing brackets before it cuts the %zone (a zone inside the brackets hides the closing bracket otherwise)')
+
+    # ---- the raw listener address (self_endpoint: STUN address + port, unfiltered) never becomes a manifest hint ---------------------------
+    PN34 = ck.prog(['src/core/Node.cpp'])
+    sc34 = PN34.fn('ephemeralnet::Node::store_chunk')
+    ck.touch(sc34)
+    raw = [i for f in PN34.with_lambdas(sc34) for i in f.walk() if (f.nodes[i].get('callee') or '') == 'ephemeralnet::Node::self_endpoint']
+    ck.ob('C34.pub', 'C34.pub/manifest-hints-not-from-raw-listener', not raw, sc34.loc(raw[0]) if raw else sc34.loc(),
+          'store_chunk builds the manifest\'s transport / control hints from the advertised endpoint list only: it never calls self_endpoint() '
+          '(that address bypasses the auto-advertise mode and the private-address filter)')
+
+    # ---- IPv6 literals are compared in lower case: normalize_ipv6 folds every character (the prefix table is lower case) -----------------------
+    low = [i for i in n6.walk() if (n6.nodes[i].get('callee') or '').endswith('tolower')]
+    lp6 = [l for l in __import__('sa.paths', fromlist=['loops']).loops(n6) if any(n6.is_in(i, l) for i in low)]
+    whole6 = bool(lp6) and n6.nodes[lp6[0]]['k'] == 'CXXForRangeStmt'
+    ck.ob('C34.v6', 'C34.v6/case-folded', bool(low) and whole6, n6.loc(),
+          'normalize_ipv6 lower-cases every character of the literal before it is matched against the (lower-case) reserved prefixes — "FD12:…" is fd12:…')
